@@ -4,7 +4,7 @@ from vlib import core, gen, runsc
 from vlib.props import c10, c06
 
 LEVEL = "other"
-EXPLANATION = ("Partial proof + search. Proved in Lean: the complete typed inventory of panic-capable constructs (index, slice, unchecked type assertion, explicit panic, Must* call, "
+EXPLANATION = ("Partial proof + search. Panic-capable constructs are classified by recognisable guards (index by the key of a range over the same slice or into a slice made with that length, sort callback, constant index or slice bound under a length check, comma-ok assertion); only the unclassifiable ones are listed and reviewed; recursion is a cycle of the static call graph. Proved in Lean: the complete typed inventory of panic-capable constructs (index, slice, unchecked type assertion, explicit panic, Must* call, "
                "strings.Repeat) and of loops in /repo's own code, regenerated with go/types on every run, equals the reviewed list (panic_sites_discharged, loops_bounded, "
                "self_calls_reviewed: decide), the guards of the non-obvious ones hold in the model (toExpr_guard, goCode_guard, verbose_services_are_steps, repeat_count_nonneg, "
                "step_names_pinned) and the model's command ends with exit 0 or 1 (run_total). NOT provable in this family: panics and hangs inside yaml.v3, cobra, gofmt/goimports, "
